@@ -636,6 +636,53 @@ func checkLengthTables(c *Ctx, prop string) {
 			}
 		}
 		c.check(good, setLen, "encoder table", setLen.Pos(), fmt.Sprintf("%v", rows), fmt.Sprintf("setPayloadLength encodes %v, RFC 6455 requires %v: lengths are not encoded in their shortest legal form / at the right offset", rows, want))
+		// the seven length bits of byte 1 are cleared (mask bit kept) before a code or a short length is or-ed in: a frame
+		// object is reused, and 126 or-ed onto the bits of an earlier odd length reads as 127
+		isElem1 := func(addr ssa.Value) bool {
+			ia, ok := addr.(*ssa.IndexAddr)
+			return ok && isConstInt(ia.Index, 1)
+		}
+		clears := func(v ssa.Value) bool { // old & 0x80
+			bo, ok := stripConv(v).(*ssa.BinOp)
+			if !ok || bo.Op != token.AND {
+				return false
+			}
+			for _, pair := range [][2]ssa.Value{{bo.X, bo.Y}, {bo.Y, bo.X}} {
+				if u, isLd := stripConv(pair[0]).(*ssa.UnOp); isLd && u.Op == token.MUL && isElem1(u.X) && isConstInt(pair[1], 128) {
+					return true
+				}
+			}
+			return false
+		}
+		var clearing []*ssa.Store
+		eachInstr(setLen, func(in ssa.Instruction) {
+			if st, ok := in.(*ssa.Store); ok && isElem1(st.Addr) && clears(st.Val) {
+				clearing = append(clearing, st)
+			}
+		})
+		nOr := 0
+		stale := token.NoPos
+		eachInstr(setLen, func(in ssa.Instruction) {
+			st, ok := in.(*ssa.Store)
+			if !ok || !isElem1(st.Addr) {
+				return
+			}
+			bo, isOr := stripConv(st.Val).(*ssa.BinOp)
+			if !isOr || bo.Op != token.OR {
+				return
+			}
+			nOr++
+			okc := clears(bo.X) || clears(bo.Y)
+			for _, cl := range clearing {
+				if dominatesInstr(cl, st) {
+					okc = true
+				}
+			}
+			if !okc {
+				stale = st.Pos()
+			}
+		})
+		c.check(nOr > 0 && stale == token.NoPos, setLen, "length bits cleared", firstPos(stale, setLen.Pos()), "byte 1 keeps only the mask bit before the length code is or-ed in", "setPayloadLength ors a length code into byte 1 without clearing the previous length bits on that path: on a reused frame 126 or-ed onto an odd earlier length reads as 127 (an 8-byte length that was never written), the decoder of the peer loses the frame boundary")
 	}
 	// --- decoder
 	{
